@@ -45,6 +45,7 @@ import json
 import os
 import re
 import shutil
+import tempfile
 import time
 
 from lib import common
@@ -455,9 +456,9 @@ def run_evaldiff(ctx, profiles, ncases, tier, on_crash=None, variants=("o", "u",
     if nevrun is None:
         lib = common.repobuild("asan")
         nevrun = common.cc_driver("nevrun", ["common/nevrun.c"], lib)
-    tmp = os.path.join(ctx.outdir, "evaldiff_tmp")
-    shutil.rmtree(tmp, ignore_errors=True)
-    os.makedirs(tmp, exist_ok=True)
+    # a private scratch directory: several runs of the same check may be in flight
+    os.makedirs(ctx.outdir, exist_ok=True)
+    tmp = tempfile.mkdtemp(prefix="evaldiff_", dir=ctx.outdir)
     # profiles: names or (name, weight); the expensive tail-recursion profile gets a smaller share
     profs = [(p, PROFILE_WEIGHT.get(p, 1.0)) if isinstance(p, str) else tuple(p) for p in profiles]
     totw = sum(w for _, w in profs)
@@ -513,7 +514,7 @@ def run_evaldiff(ctx, profiles, ncases, tier, on_crash=None, variants=("o", "u",
     if on_crash is not None:
         for c in out["crashes"]:
             on_crash(c)
-    out["tmp"] = tmp
+    shutil.rmtree(tmp, ignore_errors=True)
     return out
 
 
